@@ -27,7 +27,8 @@ type scriptServer struct {
 	next     []byte // bytes to send to the next connection (nil: close at once)
 	mode     string // "reply", "reset", "short"
 	conns    int
-	onAccept func() // called (under mu) for every accepted connection, in accept order
+	onAccept func()        // called (under mu) for every accepted connection, in accept order
+	rel      chan struct{} // mode "hang": the connection is held open until this channel is closed, then dropped
 }
 
 func newScriptServer() *scriptServer {
@@ -47,7 +48,7 @@ func newScriptServer() *scriptServer {
 			if s.onAccept != nil {
 				s.onAccept()
 			}
-			data, mode := s.next, s.mode
+			data, mode, rel := s.next, s.mode, s.rel
 			s.mu.Unlock()
 			go func() {
 				defer c.Close()
@@ -57,6 +58,11 @@ func newScriptServer() *scriptServer {
 					return
 				}
 				switch mode {
+				case "hang":
+					select {
+					case <-rel:
+					case <-time.After(60 * time.Second):
+					}
 				case "reset":
 					if tc, ok := c.(*net.TCPConn); ok {
 						tc.SetLinger(0)
@@ -78,6 +84,11 @@ func (s *scriptServer) port() uint16 { return uint16(s.l.Addr().(*net.TCPAddr).P
 func (s *scriptServer) set(mode string, data []byte) {
 	s.mu.Lock()
 	s.mode, s.next = mode, data
+	s.mu.Unlock()
+}
+func (s *scriptServer) setHang(rel chan struct{}) {
+	s.mu.Lock()
+	s.mode, s.next, s.rel = "hang", nil, rel
 	s.mu.Unlock()
 }
 func (s *scriptServer) close() { s.l.Close() }
